@@ -4,6 +4,18 @@ NOT_APPLICABLE = {}
 BASE_NOTE = ("Trusted: Lean 4.33 kernel (axioms at most propext, Classical.choice, Quot.sound; audited per theorem on every run), "
              "the go/ast fact extractor and its expectations, the seeded correspondence harness (coverage reported in evidence). ")
 TEXT = {
+    "C03": dict(
+        text="Theorems bridge_copies_exactly (for every chunking of the reads, including a last read that returns bytes together with "
+             "end-of-stream, the relay writes exactly the bytes read, in order, and closes the destination iff the source ended), "
+             "bridge_prefix_while_open, witness of the variant that loses the final chunk, over a model of bridgeHalf. Tie: regenerated "
+             "facts (relay loop order, BridgeConns, the initial byte of a stream and its acceptance with end-of-stream, Conn.Close is a "
+             "half-close, ReadFrom copies the payload, the dial-cancel test of unreachable notices) + transfers on real meshes of 2..5 "
+             "nodes over in-memory links that lose (up to 8 %), duplicate, delay and reorder datagrams, with a cut of the active path "
+             "while a dearer one exists: both sides write their own sequence (0..200 kB, write sizes 1..70 kB), close their writing "
+             "side and read to end-of-stream; directly and behind utils.BridgeConns + a Unix socket pair (one-way and duplex); plus "
+             "the unreach engine (a notice cancels only the connection to exactly that remote service).",
+        note=BASE_NOTE + "Reliable ordered delivery is quic-go's (trusted, exercised); one defect repaired (empty dial refused), one "
+             "recorded (BridgeConns closes its destination completely: duplex transfers behind bridges are cut)."),
     "C04": dict(
         text="Theorems survives_crash_outside_rewrite_partial (every crash point after creation except between the truncation and the "
              "write of a rewrite: the restarted node lists the unit with its work type), survives_every_crash_if_atomic, finished_survives, "
